@@ -31,6 +31,7 @@ func Main(c *run.Ctx) {
 	c01.RunConfigs(c, "C02", cfgs, c.Pick(60, 300), c.Pick(150, 500), true)
 	c.Floor("blocks checked", 50, 0)
 	c.Floor("blocks of more than 50 MiB", 1, 0)
+	c.Floor("profile blocks holding more than 32 MiB of payloads", 1, 0)
 	c.Floor("rows compared with submitted rows", 1000, 0)
 	c.Floor("single-chunk requests found whole in one successful block", 20, 0)
 	c.Floor("rows sent again after a failed INSERT compared field by field", 50, 0)
@@ -82,6 +83,9 @@ func Check(c *run.Ctx, wl chw.WorkCfg, h *chw.History) {
 		}
 		if bytes > 50<<20 {
 			c.Floor("blocks of more than 50 MiB", 0, 1)
+		}
+		if bytes > 32<<20 && strings.HasPrefix(b.Table, "profiles_input") {
+			c.Floor("profile blocks holding more than 32 MiB of payloads", 0, 1)
 		}
 		infl := "alone"
 		if b.InFlight > 0 {
